@@ -72,10 +72,32 @@ CUSTOM_VALIDATORS = {
 # ---------------------------------------------------------------------------------------------
 # building the real field
 # ---------------------------------------------------------------------------------------------
+FILEWORLD = "@FW"
+
+
+def fileworld():
+    """A private directory with known contents (a file `taken.log`, a directory `adir`), distinct from the working
+    directory, that file-name field specs name symbolically as "@FW"."""
+    from mc import core
+    fw = os.path.join(core.home_dir(), "fw")
+    if not os.path.isdir(os.path.join(fw, "adir")):
+        os.makedirs(os.path.join(fw, "adir"), exist_ok=True)
+        with open(os.path.join(fw, "taken.log"), "w") as fp:
+            fp.write("x")
+    return fw
+
+
+def _resolve_opts(o):
+    if o.get("startdir") == FILEWORLD:
+        o = dict(o)
+        o["startdir"] = fileworld()
+    return o
+
+
 def mk_field(spec, schemas=None):
     import cincoconfig as cc
     k = spec["k"]
-    o = dict(spec.get("o", {}))
+    o = dict(_resolve_opts(spec.get("o", {})))
     vname = o.pop("validator", None)
     if vname:
         o["validator"] = CUSTOM_VALIDATORS[vname][0]
@@ -253,7 +275,7 @@ class _Undef(Exception):
 
 def _validate(spec, v, env):
     k = spec["k"]
-    o = spec.get("o", {})
+    o = _resolve_opts(spec.get("o", {}))
     if v is None:
         if o.get("required"):
             raise Rej("required")
